@@ -15,7 +15,10 @@ META = {
             "'nan' entries only where the unique has strictly fewer parameters; uniques pairwise distinct, parameters without gaps; all per-function "
             "files have one line per function. Step (3) of do_sympy (both copies of the loop) is verified: every function takes the new string of its own unique function and its chain is the old chain followed, in order, by "
             "what the round recorded for that unique function (nothing appended when nothing was recorded), with a composition lemma over get_unique_indexes' contract and an ASSUMED per-step "
-            "relation for sympy_simplify. The chain assembly in duplicate_checker.main (`all_inv_subs = [[]] * ntot` and the loop over the rounds) is verified: the final chain of every function is the "
+            "relation for sympy_simplify. For the two merge searches of sympy_simplify that work on pairs of functions (parameter permutations, sign flips) that relation is established: the loop applying the "
+            "gathered proposals is verified -- a proposal (n, m, s), found on the strings before the loop with REL1(all_fun[n], s, all_fun[m]), is applied only if neither n nor m was named by an earlier "
+            "proposal as the function to change, so every rewritten function holds the ORIGINAL string of its reference with exactly s appended to its chain, REL1(old string, s, new string); without "
+            "either half of the guard the proof fails. The chain assembly in duplicate_checker.main (`all_inv_subs = [[]] * ntot` and the loop over the rounds) is verified: the final chain of every function is the "
             "concatenation, in round order, of the rows recorded for it in the round files (a round without a row contributes nothing; the aliased empty lists are never mutated). The writers/readers of the round files "
             "(all_inv_subs = [[]] * ntot with rebinding) and the per-step contract of sympy_simplify are covered by the bounded part only; the cancellation of chains is C17. "
             "The repair step: the rank-0 bookkeeping at the end of check_results is verified in three regions (which strings are appended to the unique list: pairwise distinct, never an "
@@ -73,6 +76,13 @@ def check(run):
         failed_all += failed
         if st == "proved" and D.canary(run, "generation/simplifier.py", "do_sympy", (lambda w=w: c_dosympy.replace_contract(w))) is False:
             raise RuntimeError("canary verified: engine vacuous on the replacement loop of do_sympy")
+    for w in (0, 1):
+        st, failed, eng = D.verify_function(run, "generation/simplifier.py", "sympy_simplify", (lambda w=w: c_dosympy.apply_changes_contract(w)), timeout_ms=15000,
+                                            tag="apply-merges-%d" % w, note="region: the loop applying the gathered proposals (%s); X[i].append(v) as X[i] = X[i] + [v] (A-alias)" % (
+                                                "parameter permutations" if w == 0 else "sign flips"))
+        failed_all += failed
+        if st == "proved" and D.canary(run, "generation/simplifier.py", "sympy_simplify", (lambda w=w: c_dosympy.apply_changes_contract(w))) is False:
+            raise RuntimeError("canary verified: engine vacuous on the merge-application loop of sympy_simplify")
     st, failed, eng = D.verify_function(run, "generation/duplicate_checker.py", "main", c_dosympy.combine_rounds_contract, timeout_ms=15000, tag="combine-rounds",
                                         note="region: all_inv_subs = [[]] * ntot and the loop over the rounds (rank-0 view); load_subs / np.loadtxt as the rows and index lines of the round files")
     failed_all += failed
